@@ -184,7 +184,7 @@ var len8Gen = rapid.OneOf(
 func drawCount(t *rapid.T, label string) int { return countGen.Draw(t, label) }
 func drawLen8(t *rapid.T, label string) int  { return len8Gen.Draw(t, label) }
 
-var tailSizes = []int{65531, 65530, 32768, 65000, 4096}
+var tailSizes = []int{65531, 65530, 32768, 65000, 4096, 4095, 4097, 32767, 32769, 16384, 8192, 1024}
 
 // NamedTags: the optional-parameter tags SMPP 3.4 (section 5.3.2) and SMGP 3.0.3
 // (section 6.3) define - the ones real peers send and the ones code is likely
@@ -315,7 +315,7 @@ func DrawVals(t *rapid.T, b *Binding, o Opts) *ref.Vals {
 		case ref.Len32:
 			n := drawLen8(t, f.Name)
 			if o.BigBodies && rapid.IntRange(0, 9).Draw(t, f.Name+"big") == 0 {
-				n = rapid.SampledFrom([]int{256, 257, 1000, 2048, 65535, 65536, 65537, 1 << 20, 1<<20 + 1, 3 << 20}).Draw(t, f.Name+"bigv")
+				n = rapid.SampledFrom([]int{256, 257, 1000, 2048, 4095, 4096, 4097, 32767, 32768, 32769, 65535, 65536, 65537, 1<<20 - 1, 1 << 20, 1<<20 + 1, 3 << 20}).Draw(t, f.Name+"bigv")
 			}
 			v.F[f.Name] = uint64(n)
 			v.F[f.Ref] = BodyBytes(t, n, f.Ref)
